@@ -218,7 +218,36 @@ func history(r *mon.Run, c Case) {
 			model = append(model, modelEntry{bit: bit})
 		}
 	}
+	// an earlier valid entry comes back: as an exact copy (valid), or with only S altered (same A, same message, same
+	// R; invalid). Entries are judged one by one.
+	addRepeat := func(mode string) {
+		it := pool[validPool[rng.IntN(len(validPool))]]
+		o := optsFor(it.c, 2)
+		sig := it.sig
+		bv.AddWithOptions(it.pk, it.msg, sig, o)
+		model = append(model, modelEntry{bit: true})
+		step("Add(valid entry, to be repeated)")
+		for k := 0; k < 1+rng.IntN(2); k++ {
+			s2 := append([]byte{}, sig...)
+			if mode != "valid" && rng.IntN(2) == 0 {
+				sv := ref.FromLE(s2[32:])
+				sv.Add(sv, big.NewInt(int64(1+rng.IntN(50))))
+				sv.Mod(sv, ref.L)
+				copy(s2[32:], ref.LE32(sv))
+			}
+			bit, _ := single(it.pk, it.msg, s2, o)
+			bv.AddWithOptions(it.pk, it.msg, s2, o)
+			r.Eval(s2)
+			r.Hist(fmt.Sprintf("entry/repeat-of-an-earlier-entry/single=%v", bit))
+			step(fmt.Sprintf("Add(repeat of the previous entry, single=%v)", bit))
+			model = append(model, modelEntry{bit: bit})
+		}
+	}
 	add := func(mode string) {
+		if len(validPool) > 0 && rng.IntN(14) == 0 {
+			addRepeat(mode)
+			return
+		}
 		if mode != "valid" && len(validPool) > 0 && rng.IntN(10) == 0 {
 			addCancelling()
 			return
